@@ -14,13 +14,13 @@ import (
 // os.File model (engine only): one file, a byte vector with position, truncate/seek log.
 // Natively the harness uses a real temporary file and the real server commands.
 
-//verif:replace (*os.File).Stat => vmFileStat
-//verif:replace (*os.File).Read => vmFileRead
-//verif:replace (*os.File).Write => vmFileWrite
-//verif:replace (*os.File).Truncate => vmFileTruncate
-//verif:replace (*os.File).Seek => vmFileSeek
-//verif:replace (*os.File).Sync => vmFileSync
-//verif:replace (*github.com/tidwall/tile38/internal/server.Server).command => vmCommandRecorder
+//verif:replace[filemodel] (*os.File).Stat => vmFileStat
+//verif:replace[filemodel] (*os.File).Read => vmFileRead
+//verif:replace[filemodel] (*os.File).Write => vmFileWrite
+//verif:replace[filemodel] (*os.File).Truncate => vmFileTruncate
+//verif:replace[filemodel] (*os.File).Seek => vmFileSeek
+//verif:replace[filemodel] (*os.File).Sync => vmFileSync
+//verif:replace[recorder] (*github.com/tidwall/tile38/internal/server.Server).command => vmCommandRecorder
 
 type vmFileT struct {
 	data      []byte
@@ -205,13 +205,13 @@ func vhStringValue(s *Server, key, id string) (string, bool) {
 
 func vhNewServer() *Server {
 	if vnative() {
-		return vhNativeServer()
+		return vhServer()
 	}
 	return &Server{fcond: sync.NewCond(&sync.Mutex{})}
 }
 
 // VH_C04_torn_tail: log = enc(c1) z1 enc(c2) z2 cut at every offset t; ids/values symbolic, padding 0..2 NULs.
-//verif:cfg b_commands=2 b_arg_bytes=1..2 b_padding=0..2_NUL b_tear=every_offset b_chunking=whole_file ignorego=1
+//verif:cfg use=recorder,filemodel b_commands=2 b_arg_bytes=1..2 b_padding=0..2_NUL b_tear=every_offset b_chunking=whole_file ignorego=1
 func VH_C04_torn_tail() {
 	id1, v1 := vnondetStringN(1), vnondetString(2)
 	id2, v2 := vnondetStringN(1), vnondetString(1)
